@@ -243,7 +243,37 @@ func raceCheck() (class, report string) {
 		return "", ""
 	}
 	report = string(b)
+	if !bothSidesInLibrary(report) {
+		// A race in which one of the two accesses does not come from the
+		// library under test is a defect of this harness (its own shared
+		// state, or harness code touching library memory): harness trouble,
+		// never a violation of the property.
+		fmt.Fprintf(os.Stderr, "HARNESS RACE (not a property violation):\n%s\n", report)
+		os.Exit(exitTrouble)
+	}
 	return raceSignature(report), report
+}
+
+const libraryPath = "github.com/AdguardTeam/urlfilter"
+
+// bothSidesInLibrary reports whether each of the two access stacks of the
+// first report has at least one frame in the library under test.
+func bothSidesInLibrary(report string) bool {
+	lines := strings.Split(report, "\n")
+	sides, withLib := 0, 0
+	for i := 0; i < len(lines) && sides < 2; i++ {
+		if !raceHdr.MatchString(lines[i]) {
+			continue
+		}
+		sides++
+		for j := i + 1; j < len(lines) && strings.TrimSpace(lines[j]) != ""; j++ {
+			if strings.Contains(lines[j], libraryPath+"/") || strings.Contains(lines[j], libraryPath+".") {
+				withLib++
+				break
+			}
+		}
+	}
+	return sides == 2 && withLib == 2
 }
 
 // execute performs one run.  It is the only place a run is executed, for
